@@ -69,6 +69,7 @@ def run(ck, F, E):
     kinds(ck, F, E)
     statement_checks(ck, F)
     user_functions(ck, F)
+    def_recorded(ck, F)
     resolution_order(ck, F)
     jump_targets(ck, F)
     resume_rule(ck, F, "C06")
@@ -506,6 +507,28 @@ def user_functions(ck, F):
     else:
         ck.ok("C06:KIND:def-body-unchecked", "user functions",
               "call kind by name=%s, body checked against the name=%s" % (by_name, body_checked), "", a.span)
+
+
+def def_recorded(ck, F):
+    """Both forks resolve `NAME(..)` through the function table; the analyzer can only resolve a call like the interpreter does if
+    its DEF handler records the definition too: in both forks every successful path of evaluate_def_statement passes
+    Program::define_function."""
+    from lib import path_records
+    for owner, tag in ((EV_S, "interpreter"), (AN_S, "analyzer")):
+        b = F.bodies.get(owner + "::evaluate_def_statement")
+        if b is None:
+            ck.missing("C06:FN:def-recorded:%s" % tag, owner + "::evaluate_def_statement")
+            continue
+        try:
+            recs = path_records(b)
+        except OverflowError:
+            recs = []
+        oks = [r for r in recs if r["outcome"] == "Ok" or (r["outcome"] is None and not any(c.callee.endswith("from_residual") for c in r["calls"]))]
+        missing = [r for r in oks if not any(sfx(c.callee, "Program::define_function") for c in r["calls"])]
+        ck.require(bool(b.calls_to("Program::define_function")) and not missing, "C06:FN:def-recorded:%s" % tag, "user functions",
+                   "every successful path of the %s's DEF handler records the function" % tag,
+                   "the %s's evaluate_def_statement can succeed without calling Program::define_function: calls of the function are "
+                   "then resolved differently by the two forks (as an array access by the one that did not record it)" % tag, b.span)
 
 
 def resolution_order(ck, F):
